@@ -28,3 +28,5 @@ Lemma prelude_exact_int : int_table P_exact_tbl = true.
 Proof. vm_compute. reflexivity. Qed.
 Lemma prelude_exact_pos : pos_table P_exact_tbl = true.
 Proof. vm_compute. reflexivity. Qed.
+Lemma prelude_exact_names_distinct : distinct_names (map u_name P_exact_tbl) = true.
+Proof. vm_compute. reflexivity. Qed.
